@@ -439,7 +439,17 @@ def check(tag, items, ok_file, imports=""):
         return False, f"translator crashed: {type(e).__name__}: {e}"
     (gen / f"Fun_{tag}.v").write_text(txt)
     rc, out = core.sh(f"timeout 300 coqc -Q . SPP Gen/Fun_{tag}.v && timeout 600 coqc -Q . SPP Gen/{ok_file}.v", cwd=core.COQ, timeout=1000)
-    return rc == 0, out[-800:]
+    if rc != 0:
+        return False, out[-800:]
+    # the Print Assumptions lines under the tie theorems: nothing outside the allow-list of standard-library axioms
+    import re
+    used = set()
+    for blk in re.split(r"(?m)^Axioms:\s*$", out)[1:]:
+        used |= set(re.findall(r"(?m)^([A-Za-z_][\w.]*)\s*(?::|$)", blk.split("Closed under the global context")[0]))
+    bad = used - core.ALLOWED_AXIOMS
+    if bad:
+        return False, f"tie theorems of Gen/{ok_file}.v depend on assumptions outside the allow-list: {sorted(bad)}"
+    return True, out[-800:]
 
 
 if __name__ == "__main__":
